@@ -48,6 +48,7 @@ type Frame struct {
 	unroll int                      // loop header visits on this path (unrolling guard)
 	visits map[*ssa.BasicBlock]int  // bounded runs: visits of each loop header since its loop was entered
 	lockKey    map[*ssa.BasicBlock]string // lockstep: name of the cut of each loop header on this path
+	lockFresh  map[*ssa.BasicBlock][]*Cell // lockstep: cells written by the cut loop that this run allocated
 	lockPerm   map[*ssa.BasicBlock][]int  // lockstep: position of each header phi in the common order
 	rangeAlias map[*ssa.BasicBlock]bool // counting loops whose variable is also visible as rangeindex+1
 	iterSig map[*ssa.BasicBlock]string // bounded runs: branches taken in the current iteration of each loop
@@ -88,6 +89,10 @@ func (f *Frame) clone() *Frame {
 		n.lockPerm = make(map[*ssa.BasicBlock][]int, len(f.lockPerm))
 		for k, v := range f.lockPerm {
 			n.lockPerm[k] = v
+		}
+		n.lockFresh = make(map[*ssa.BasicBlock][]*Cell, len(f.lockFresh))
+		for k, v := range f.lockFresh {
+			n.lockFresh[k] = v
 		}
 	}
 	if f.iterSig != nil {
@@ -1004,7 +1009,7 @@ func (x *Exec) ufApp(st *State, name string, s Sort, args []*Term) *Term {
 	r, ok := ufMemo[k]
 	if !ok {
 		ufHints[sanitize(name)] = true
-		r = freshVar(name, s)
+		r = freshVarCounted(name, s)
 		ufMemo[k] = r
 	}
 	found := false
@@ -1712,10 +1717,19 @@ func (x *Exec) runInstrs(st *State, fr *Frame, b *ssa.BasicBlock, idx int, prev 
 			fr2 := fr.clone()
 			st1.assume(c)
 			st2.assume(mkNot(c))
-			x.boundedFork(fr, b, 0)
-			x.boundedFork(fr2, b, 1)
-			res := x.run(st1, fr, b.Succs[0], 0, b)
-			res = append(res, x.run(st2, fr2, b.Succs[1], 0, b)...)
+			keep0 := x.boundedFork(fr, b, 0)
+			keep1 := x.boundedFork(fr2, b, 1)
+			var res []Out
+			if keep0 {
+				res = x.run(st1, fr, b.Succs[0], 0, b)
+			} else {
+				x.boundHits++
+			}
+			if keep1 {
+				res = append(res, x.run(st2, fr2, b.Succs[1], 0, b)...)
+			} else {
+				x.boundHits++
+			}
 			return nil, nil, nil, res, true
 		case *ssa.Jump:
 			return st, b.Succs[0], b, nil, false
